@@ -109,6 +109,19 @@ func genC16(cs *CaseSet, rng *Rng, tier string, dir string) {
 		}
 		add("random", 1+rng.Intn(2), b)
 	}
+	// boundary byte values in every position (full bytes, 254, 128, 127), both formats
+	for pos := 0; pos < 8; pos++ {
+		for _, v := range []byte{255, 254, 128, 127, 1} {
+			var b hotline.AccessBitmap
+			b[pos] = v
+			add("byte-value", 1, b)
+			add("byte-value", 2, b)
+			var c hotline.AccessBitmap
+			copy(c[:], rng.Bytes(8))
+			c[pos] = v
+			add("byte-value", 1+rng.Intn(2), c)
+		}
+	}
 	add("all-ones", 1, hotline.AccessBitmap{255, 255, 255, 255, 255, 255, 255, 255})
 	add("all-ones", 2, hotline.AccessBitmap{255, 255, 255, 255, 255, 255, 255, 255})
 	add("all-zero", 1, hotline.AccessBitmap{})
@@ -147,7 +160,7 @@ func genC16(cs *CaseSet, rng *Rng, tier string, dir string) {
 		cs.Add(Case{Kind: it.kind + map[int]string{1: "-named", 2: "-legacy"}[it.format],
 			Ops:        []Op{mkOp(it.format, map[int]string{1: "save-named-load", 2: "legacy-load-migrate-load"}[it.format], it.b[:])},
 			Obs:        [][][]byte{{l1, []byte(keys), l2}},
-			NonTrivial: (it.kind == "single" && n == 1) || (it.kind == "pair" && n == 2) || (it.kind == "random" && n >= 2)})
+			NonTrivial: (it.kind == "single" && n == 1) || (it.kind == "pair" && n == 2) || ((it.kind == "random" || it.kind == "byte-value") && n >= 2)})
 	}
 
 	// wire: the bytes sent in the user-access field at login are the bitmap Authorize reads
